@@ -21,6 +21,18 @@ theorem normalize_never_climbs (p : Bytes) : canonical (normalize p) = true := b
   · rw [h]; exact canonical_slash
   · rw [h]; exact canonical_render c cs hg
 
+/-- **normalize_fixes_canonical.**  The other half of "lexical normalisation is right": a request
+that is already canonical is left untouched, so the safety above is not bought by mangling
+well-formed paths (a `normalize` that always answered `/` would also "never climb"). -/
+theorem normalize_fixes_canonical (p : Bytes) (h : canonical p = true) : normalize p = p := by
+  rcases canonical_cases p h with ⟨rfl, _⟩ | ⟨c, cs, _, rfl, hg⟩
+  · decide +kernel
+  · exact normalize_render c cs hg
+
+/-- normalisation is idempotent -/
+theorem normalize_idempotent (p : Bytes) : normalize (normalize p) = normalize p :=
+  normalize_fixes_canonical _ (normalize_never_climbs p)
+
 /-- **is_file_prefix_iff_component_prefix.**  On canonical paths the string test the code uses
 is exactly the component-wise prefix relation: `/al` is a prefix of `/al` and `/al/x`, never of
 `/alX`. -/
@@ -153,8 +165,8 @@ theorem alias_choice_component_wise (cfg : Config) (n : Bytes) (hn : canonical n
 abbrev openedPath (fs : Fs) (cfg : Config) (f : Bytes) : Option Path := (main fs cfg f).opened
 
 /-- POSIX law for the external `realpath`: every answer is an absolute path without empty, `.`
-or `..` components and without trailing slash -/
-def RealpathLaw (fs : Fs) : Prop := ∀ q r, fs.realpath q = some r → canonical r = true
+or `..` components and without trailing slash, and (being a C string) contains no NUL -/
+def RealpathLaw (fs : Fs) : Prop := ∀ q r, fs.realpath q = some r → canonical r = true ∧ (0 : UInt8) ∉ r
 
 /-- the roots stored by the constructor are `realpath` answers -/
 def RootsCanonical (cfg : Config) : Prop :=
@@ -165,28 +177,30 @@ directory — for the request itself or for request + `/` + index file — the p
 answer `realpath` gave for `root ++ "/" ++ rest`, where `(root, rest)` is what the alias loop chose
 for the normalised request (`alias_choice_component_wise` says which), `rest` is canonical, and
 the opened path lies inside `root` component-wise (`Spec.inside`), i.e. after all symbolic
-links were followed. -/
+links were followed; it contains no NUL, so the kernel is handed exactly this path. -/
 theorem served_inside_root_symlinks (fs : Fs) (cfg : Config) (f : Bytes) (path : Path)
     (hfs : RealpathLaw fs) (hroots : RootsCanonical cfg) (hs : cfg.checkSymlinks = true)
     (h : openedPath fs cfg f = some path) :
     ∃ req, (req = f ∨ req = f ++ [47] ++ cfg.indexFile) ∧
       canonical (pickRoot cfg (normalize req)).2 = true ∧
       fs.realpath (cstr ((pickRoot cfg (normalize req)).1 ++ [47] ++ (pickRoot cfg (normalize req)).2)) = some path ∧
-      inside (pickRoot cfg (normalize req)).1 path = true := by
+      inside (pickRoot cfg (normalize req)).1 path = true ∧ cstr path = path := by
   have key : ∀ req, checkInDocumentRoot fs cfg req = some path →
       canonical (pickRoot cfg (normalize req)).2 = true ∧
       fs.realpath (cstr ((pickRoot cfg (normalize req)).1 ++ [47] ++ (pickRoot cfg (normalize req)).2)) = some path ∧
-      inside (pickRoot cfg (normalize req)).1 path = true := by
+      inside (pickRoot cfg (normalize req)).1 path = true ∧ cstr path = path := by
     intro req hc
     obtain ⟨hcan, hrest⟩ := cidr_some fs cfg req path hc
     simp only [hs, if_true] at hrest
     obtain ⟨hreal, hpre⟩ := hrest
     refine ⟨hcan, hreal, ?_⟩
+    show inside (pickRoot cfg (normalize req)).1 path = true ∧ cstr path = path
     have hrootc : canonical (pickRoot cfg (normalize req)).1 = true := by
       rcases pickRoot_root cfg (normalize req) with e | ⟨a, ha, e⟩
       · rw [e]; exact hroots.1
       · rw [e]; exact hroots.2 a ha
-    have hpathc := hfs _ _ hreal
+    have hpathc := (hfs _ _ hreal).1
+    refine ⟨?_, cstr_of_nul_free path (hfs _ _ hreal).2⟩
     unfold inside
     rw [hrootc, hpathc, ← is_file_prefix_iff_component_prefix _ _ hrootc hpathc, hpre]
     rfl
@@ -260,6 +274,31 @@ the file server contains no NUL (it is stored as a C string): the hypothesis of
 `served_lexical_cstring` holds for every request that arrives over HTTP. -/
 theorem path_info_nul_free (target : Bytes) : (0 : UInt8) ∉ pathInfoOfTarget target :=
   cstr_nul_free _
+
+/-- **http_request_confined.**  The two confinement theorems composed with the HTTP glue, for every
+request target (any bytes, any percent-encoding): with symlink checking on, what is opened is a
+`realpath` answer inside the chosen root; with it off, the kernel is handed `root ++ rest` with
+`rest` canonical — no NUL-freeness assumption on the request is left. -/
+theorem http_request_confined (fs : Fs) (cfg : Config) (target : Bytes) (path : Path)
+    (hfs : RealpathLaw fs) (hroots : RootsCanonical cfg)
+    (hi : (0 : UInt8) ∉ cfg.indexFile) (hr : (0 : UInt8) ∉ cfg.docRoot ∧ ∀ a ∈ cfg.aliases, (0 : UInt8) ∉ a.2)
+    (h : openedPath fs cfg (pathInfoOfTarget target) = some path) :
+    cstr path = path ∧
+    ∃ req, (req = pathInfoOfTarget target ∨ req = pathInfoOfTarget target ++ [47] ++ cfg.indexFile) ∧
+      canonical (pickRoot cfg (normalize req)).2 = true ∧
+      (if cfg.checkSymlinks then
+         fs.realpath (cstr ((pickRoot cfg (normalize req)).1 ++ [47] ++ (pickRoot cfg (normalize req)).2)) = some path ∧
+         inside (pickRoot cfg (normalize req)).1 path = true
+       else
+         path = (pickRoot cfg (normalize req)).1 ++
+           (if (pickRoot cfg (normalize req)).2 = [47] then [] else (pickRoot cfg (normalize req)).2)) := by
+  by_cases hs : cfg.checkSymlinks = true
+  · obtain ⟨req, hreq, hc, hreal, hin, hcs⟩ := served_inside_root_symlinks fs cfg _ path hfs hroots hs h
+    exact ⟨hcs, req, hreq, hc, by simp only [hs, if_true]; exact ⟨hreal, hin⟩⟩
+  · have hs' : cfg.checkSymlinks = false := by simpa using hs
+    obtain ⟨req, hreq, hc, hp⟩ := served_lexical_no_symlink_check fs cfg _ path hs' h
+    have := served_lexical_cstring fs cfg _ path hs' h (path_info_nul_free target) hi hr
+    exact ⟨this.2, req, hreq, hc, by simp only [hs', Bool.false_eq_true, if_false]; exact hp⟩
 
 /-- the file system of the witness below: `/r` and `/r/..` are directories, `/r/..` holds `secret` -/
 def witnessFs : Fs where
@@ -393,7 +432,7 @@ example : isFilePrefix [47,97,108] [47,97,108,88] = false ∧ isFilePrefix [47,9
     isFilePrefix [47,97,108] [47,97,108] = true := by decide +kernel
 -- the laws assumed of the externals hold of the example file system where they are used
 example : ∀ q ∈ [[47,114,47,47,97,46,116,120,116], [47,114,47,47,100], [47,114,47,47,108], [47,116,47,47]],
-    ∀ r, exFs.realpath q = some r → canonical r = true := by decide +kernel
+    ∀ r, exFs.realpath q = some r → canonical r = true ∧ (0 : UInt8) ∉ r := by decide +kernel
 example : RootsCanonical exCfg := by
   refine ⟨by decide +kernel, ?_⟩
   intro a ha
